@@ -93,7 +93,36 @@ class Cell(object):
             self.srv.stop()
 
 
+WORDS = ["the", "wire", "of", "a", "response", "is", "split", "into", "chunks", "été", "日本", "x", "JSON-RPC", "&",
+         "naïve", "\U0001F600", "-", "1024", "bytes", ""]
+
+
+def prose(rng, n):
+    """English-like text with single spaces (bodies larger than the transports' read chunks)."""
+    out = []
+    size = 0
+    while size < n:
+        w = rng.choice(WORDS)
+        out.append(w)
+        size += len(w) + 1
+    return " ".join(out)
+
+
+def big_value(rng):
+    r = rng.random()
+    n = rng.choice([300, 900, 1024, 1500, 2048, 3000, 6000])
+    if r < 0.5:
+        return prose(rng, n)
+    if r < 0.8:
+        return [prose(rng, n // 4) for _ in range(4)]
+    return {"text " + str(i): prose(rng, n // 3) for i in range(3)}
+
+
 def gen_args(rng):
+    if rng.random() < 0.12:
+        if rng.random() < 0.5:
+            return [big_value(rng)], {}
+        return [], {"big key": big_value(rng)}
     if rng.random() < 0.5:
         return [gen.json_value(rng, 3, 3, falsy_bias=0.25) for _ in range(rng.randint(0, 4))], {}
     return [], {gen.rand_key(rng): gen.json_value(rng, 3, 3, falsy_bias=0.25) for _ in range(rng.randint(0, 4))}
@@ -101,6 +130,8 @@ def gen_args(rng):
 
 def gen_planned(rng):
     r = rng.random()
+    if r < 0.12:
+        return big_value(rng)
     if r < 0.4:
         v = rng.choice(gen.FALSY)
         return type(v)() if isinstance(v, (list, dict)) else v
